@@ -1,5 +1,6 @@
 import PtnModel.Driver.Util
 import PtnModel.Driver.Bipartite
+import PtnModel.Driver.BondOps
 /-!
 Line-protocol driver: one JSON object per input line (`{"op": name, ...}`), one JSON line out.
 Compiled to `.lake/build/bin/ptndriver`; imports nothing from Mathlib.
@@ -7,7 +8,8 @@ Compiled to `.lake/build/bin/ptndriver`; imports nothing from Mathlib.
 open Lean Ptn.Drv
 
 def handlers : List Handler := [
-  Ptn.Drv.Bipartite.handle
+  Ptn.Drv.Bipartite.handle,
+  Ptn.Drv.BondOps.handle
 ]
 
 def dispatch (line : String) : String :=
